@@ -2,7 +2,7 @@
 From Coq Require Import List ZArith NArith Bool String.
 Import ListNotations.
 From DD Require Import Base.Sx Base.PyStr Base.Value Diff.Tree Diff.DiffModel Diff.DiffShow
-  Path.PathModel Filter.FilterModel.
+  Path.PathModel Filter.FilterModel Filter.FilterModelV.
 Local Open Scope string_scope.
 
 (* the reported levels of a run (sorted; the recorded opcode paths are C01's business) *)
@@ -24,3 +24,12 @@ Definition tbl_hits (t : list (path * nat)) (p : path) (i : nat) : bool :=
 Definition c13_case_h (ud : list (pystr * pystr * pystr)) (ot : list (path * list opcode))
     (rxt : list path) (rxht : list (path * nat)) (ex inc : list pystr) (c : cfg) (t1 t2 : value) : sx :=
   sx_entries (run_filtered_h hatom_simple (tbl_udiff ud) (tbl_ops ot) (tbl_paths rxt) (tbl_hits rxht) ex inc c t1 t2).
+
+(* the whole of _skip_this: exclude_types = TY, the callbacks as truth tables over the sub-values of the inputs
+   (a callback that is not given: [] for the exclude callbacks, None for the include callbacks) *)
+Definition tbl_values (t : list value) (v : value) : bool := existsb (value_eqb v) t.
+Definition c13_case_v (ud : list (pystr * pystr * pystr)) (ot : list (path * list opcode))
+    (rxt : list path) (rxht : list (path * nat)) (ex inc : list pystr)
+    (TY : list ty) (cbt cbst : list value) (icbt icbst : option (list value)) (c : cfg) (t1 t2 : value) : sx :=
+  sx_entries (run_full hatom_simple (tbl_udiff ud) (tbl_ops ot) (tbl_paths rxt) (tbl_hits rxht) ex inc
+                TY (tbl_values cbt) (tbl_values cbst) (option_map tbl_values icbt) (option_map tbl_values icbst) c t1 t2).
